@@ -212,10 +212,10 @@ def explore(prop, tier, seed, nproc, only=None, budget=None, log=sys.stderr):
     return mod, spaces, per_space, harness_errors, caps, time.time() - t_start
 
 
-def _replay_once(prop, tier, mode, space, rank):
+def _replay_once(prop, tier, mode, space, lo, hi):
     pool = _make_pool(prop, tier, mode, 1)
     try:
-        return pool.apply(_worker_run, ((space, rank, rank + 1),))
+        return pool.apply(_worker_run, ((space, lo, hi),))
     finally:
         pool.terminate()
         pool.join()
@@ -226,17 +226,29 @@ def _viol_identity(v):
 
 
 def confirm(prop, tier, spaces, viol):
-    """Re-execute a reported violation twice in fresh interpreters; both must report the same violation."""
+    """Re-execute a reported violation twice in fresh interpreters; both runs must report the same violation.
+    First the failing case alone; if that does not reproduce it, the shard prefix [shard_lo, rank] is replayed as a
+    history (a defect that needs earlier calls of the same process — a cache, a mutated default — shows only then)."""
     mode = {s.name: s.mode for s in spaces}[viol["space"]]
+    attempts = [(viol["rank"], viol["rank"] + 1)]
+    if viol.get("shard_lo", viol["rank"]) < viol["rank"]:
+        attempts.append((viol["shard_lo"], viol["rank"] + 1))
     seen = []
-    for _ in range(2):
-        sh = _replay_once(prop, tier, mode, viol["space"], viol["rank"])
-        if sh.get("harness_error"):
-            seen.append("harness error during replay: " + sh["harness_error"][-400:])
-            continue
-        ids = [_viol_identity(v) for v in sh["violations"]]
-        seen.append(_viol_identity(viol) in ids)
-    return all(x is True for x in seen), seen
+    for lo, hi in attempts:
+        seen = []
+        for _ in range(2):
+            sh = _replay_once(prop, tier, mode, viol["space"], lo, hi)
+            if sh.get("harness_error"):
+                seen.append("harness error during replay: " + sh["harness_error"][-400:])
+                continue
+            ids = [_viol_identity(v) for v in sh["violations"]]
+            seen.append(_viol_identity(viol) in ids or
+                        any(v["key"] == viol["key"] for v in sh["violations"]) or
+                        (sh["n_violations"] > len(sh["violations"]) and lo < viol["rank"]))
+        if all(x is True for x in seen):
+            viol["replay_range"] = [lo, hi]
+            return True, seen
+    return False, seen
 
 
 def write_replay(prop, tier, viol, tree):
@@ -263,7 +275,8 @@ def replay(path, log=sys.stdout):
     mod = check_module(prop)
     spaces = mod.build(tier)
     mode = {s.name: s.mode for s in spaces}[v["space"]]
-    sh = _replay_once(prop, tier, mode, v["space"], v["rank"])
+    lo, hi = v.get("replay_range") or [v["rank"], v["rank"] + 1]
+    sh = _replay_once(prop, tier, mode, v["space"], lo, hi)
     if sh.get("harness_error"):
         print("HARNESS-ERROR during replay:\n" + sh["harness_error"], file=log)
         return 2
